@@ -295,6 +295,71 @@ func twoClients() {
 	vrt.Observe("x=%v y=%v", ex != nil, ey != nil)
 }
 
+// lentObject: client A hosts an object and lends it to the service
+// (adopt); client B, on another connection, obtains it from the service
+// (adopted) and calls it: the service relays the calls to A's connection and
+// the answers - results and errors alike - back to B.
+func lentObject() {
+	w := fx.Start(bus.Yes{})
+	cA, cB := w.MustConnect(), w.MustConnect()
+	pA, pB := cA.Probe(1), cB.Probe(1)
+	mine := probe.New("lent")
+	svcA := pA.Proxy().ProxyService(cA.Session())
+	lent, err := probe.CreateProbe(cA.Session(), svcA, mine)
+	if err != nil {
+		vrt.Failf("harness/create", "%v", err)
+		return
+	}
+	if err := pA.Adopt(lent); err != nil {
+		vrt.Failf("harness/adopt", "%v", err)
+		return
+	}
+	vrt.Quiesce()
+	vrt.Explore()
+	var v5 int32
+	var e5, e7, eGet error
+	step := 0
+	wb := vrt.GoWorker("B", func() {
+		o, err := pB.Adopted()
+		if err != nil {
+			eGet = err
+			return
+		}
+		step = 1
+		v5, e5 = o.Echo(5)
+		step = 2
+		_, e7 = o.Echo(-7)
+		step = 3
+	})
+	var vA int32
+	var eA error
+	wa := vrt.GoWorker("A", func() { vA, eA = pA.Echo(3) })
+	vrt.Quiesce()
+	if !wb.Done() {
+		vrt.Failf(fmt.Sprintf("hang/lent-object-call/step%d", step), "client B's call on the object lent by client A never returned (after step %d: 1 = obtained, 2 = echo(5) returned, 3 = echo(-7) returned); blocked on %s", step, wb.BlockedOn())
+	}
+	fx.Settle(wa)
+	switch {
+	case eGet != nil:
+		vrt.Failf("call-failed/adopted", "adopted() failed: %v", eGet)
+	case step >= 2 && (e5 != nil || v5 != probe.EchoResult(5)):
+		vrt.Failf("wrong-result/lent-object", "echo(5) on the lent object returned %d, %v", v5, e5)
+	case step >= 3 && e7 == nil:
+		vrt.Failf("error-lost/lent-object", "echo(-7) on the lent object succeeded although its method answers with an error")
+	case step >= 3 && !strings.HasSuffix(e7.Error(), probe.EchoError(-7)):
+		vrt.Failf("wrong-error/lent-object", "echo(-7) on the lent object failed with %q, its method answered %q", e7.Error(), probe.EchoError(-7))
+	}
+	if step >= 3 && (mine.Calls["echo(5)"] != 1 || mine.Calls["echo(-7)"] != 1) {
+		vrt.Failf("execution-count/lent-object", "the lent object ran echo(5) %d times and echo(-7) %d times", mine.Calls["echo(5)"], mine.Calls["echo(-7)"])
+	}
+	if eA != nil || vA != probe.EchoResult(3) {
+		vrt.Failf("call-failed/echo", "client A's own call failed meanwhile: %d, %v", vA, eA)
+	}
+	checkWire("connA", cA, nil)
+	checkWire("connB", cB, nil)
+	vrt.Observe("step=%d", step)
+}
+
 // cancel: a call with a cancel channel racing the closing of that channel.
 func cancel(action uint32, key string, payload []byte, want int32) func() {
 	return func() {
@@ -477,6 +542,8 @@ func init() {
 		Doc: "A: a call whose answer is exactly MaxPayloadSize bytes || B (other connection): a call whose answer is one byte larger: each gets exactly one outcome, the service keeps serving"})
 	reg.Register(&reg.Scenario{Property: "C04", Name: "two-clients-one-connection", Body: twoClients, Quick: 1, Thorough: 3,
 		Doc: "two client objects on one connection (equal message counters) call the same action of two objects; the later call is answered first"})
+	reg.Register(&reg.Scenario{Property: "C04", Name: "lent-client-object", Body: lentObject, Quick: 1, Thorough: 2,
+		Doc: "client A lends an object it hosts to the service (adopt); client B obtains it (adopted) and calls echo(5) and echo(-7) on it through the service's relay while A calls the service: results and errors come back to their own callers"})
 	reg.Register(&reg.Scenario{Property: "C04", Name: "cancel-slow", Body: cancel(103, "slow(4)", fx.Int32(4), probe.EchoResult(4)), Quick: 2, Thorough: 3,
 		Doc: "Call(slow(4)) with a cancel channel || close(cancel)", MustFlag: []string{"cancelled"}})
 	reg.Register(&reg.Scenario{Property: "C04", Name: "cancel-noarg", Body: cancel(102, "noarg", nil, 42), Quick: 2, Thorough: 3,
